@@ -1,5 +1,11 @@
 package chk
 
+import (
+	"fmt"
+
+	"golang.org/x/tools/go/ssa"
+)
+
 func init() { Registry["C02"] = checkC02 }
 
 // C02 — Size() equals bytes written equals the header size field (structural part).
@@ -7,9 +13,32 @@ func checkC02(c *Ctx, r *Report) {
 	r.Explanation = "W-SE: for every registered box type and every configuration of its discriminants, the symbolic number of bits EncodeSW writes on the decoded abstract structure equals 8*Size() as polynomials " +
 		"over the symbolic counts/lengths, and the header item carries Size() of the same box; T-WRAP: every Encode wrapper allocates exactly int(recv.Size()), encodes the same receiver into it, checks the error and writes sw.Bytes(); " +
 		"S-MEMBER: Size/Encode/EncodeSW of the composites (File, InitSegment, MediaSegment, Fragment) traverse the same members. " +
-		"Decides agreement of the size function with the encoder per configuration; does not decide irregular boxes, numeric loop bounds, or idempotence of encodes that mutate state."
+		"W-NARROW: in the functions reachable from the size methods no product of two non-constant values is computed in 32 bits or fewer and only then widened. Decides agreement of the size function with the encoder per configuration; does not decide irregular boxes, numeric loop bounds, or idempotence of encodes that mutate state."
 	wireAssumptions(r)
 	ruleWSE(c, r)
 	ruleTWRAP(c, r)
 	ruleSMEMBER(c, r)
+	// W-NARROW over the size functions and what they call: a product computed in a narrow type and only then
+	// widened makes Size() wrap while the encoder still writes every entry.
+	sizeFns := map[*ssa.Function]bool{}
+	var entries []*ssa.Function
+	for _, f := range c.RepoFuncs(IsLib) {
+		switch f.Name() {
+		case "Size", "size", "expectedSize":
+			if f.Pkg != nil && f.Pkg.Pkg.Name() == "mp4" {
+				entries = append(entries, f)
+			}
+		}
+	}
+	scope, _ := scopeFrom(c, entries)
+	for f := range scope {
+		sizeFns[f] = true
+	}
+	r.Extra["W-NARROW_size_functions"] = len(sizeFns)
+	if len(sizeFns) < 150 {
+		r.Undecided("W-NARROW", "scope", "", fmt.Sprintf("only %d size functions found", len(sizeFns)))
+	} else {
+		r.OK("W-NARROW", "scope", "", fmt.Sprintf("%d functions reachable from the Size/size/expectedSize methods of package mp4 examined for narrow products", len(sizeFns)))
+	}
+	ruleNarrowMul(c, r, "W-NARROW", func(f *ssa.Function) bool { return sizeFns[f] })
 }
